@@ -10,11 +10,13 @@ Import ListNotations.
 
 (* For every interleaving (and every choice of pooled objects by sync.Pool), what a transaction
    observes of itself - where it is, what it returned, the state of its Transaction object - equals
-   what it observes running alone for as many steps; provided evaluation steps do not write the WAF *)
+   what it observes running alone for as many steps; provided evaluation steps do not write the WAF and
+   newTransaction (init, applied to whatever the recycled object holds) leaves nothing of that content *)
 Theorem C06_outcome_schedule_independent :
-  forall (W Inp Act Cont Rec : Type) (init : W -> Inp -> Cont)
+  forall (W Inp Act Cont Rec : Type) (init : W -> Inp -> Cont -> Cont)
          (eval : W -> Inp -> Act -> Cont -> W * Cont) (render : Cont -> Rec),
   (forall w i a c, fst (eval w i a c) = w) ->
+  (forall w i c c', init w i c = init w i c') ->
   forall sched s ls i li,
     gm_inv s ls -> nth_error ls i = Some li ->
     exists li', nth_error (snd (gm_run init eval render sched (s, ls))) i = Some li' /\
@@ -27,7 +29,7 @@ Print Assumptions C06_outcome_schedule_independent.
 (* the invariant behind it: in every interleaving, live transactions hold pairwise distinct objects,
    none of which is in the pool (given that a transaction closes at most once - see C05 / F22) *)
 Theorem C06_live_transactions_never_alias :
-  forall (W Inp Act Cont Rec : Type) (init : W -> Inp -> Cont)
+  forall (W Inp Act Cont Rec : Type) (init : W -> Inp -> Cont -> Cont)
          (eval : W -> Inp -> Act -> Cont -> W * Cont) (render : Cont -> Rec),
   forall sched s ls, gm_inv s ls ->
     gm_inv (fst (gm_run init eval render sched (s, ls))) (snd (gm_run init eval render sched (s, ls))).
@@ -151,3 +153,28 @@ Theorem C06_concurrent_writer_early_return_refuted :
             forall fb, cw_step true fb (fst st) l = (fst st, l).
 Proof. exact cw_early_return_refuted. Qed.
 Print Assumptions C06_concurrent_writer_early_return_refuted.
+
+(* per-transaction settings (body limits, engine modes, ... overwritten by ctl): when newTransaction
+   re-copies every setting from the WAF on every call, then for every interleaving and every choice
+   of pooled objects the settings a transaction works with, and every outcome depending on them,
+   are those of the transaction run alone *)
+Theorem C06_settings_schedule_independent : forall mask, Forall (fun b => b = true) mask ->
+  forall sched s ls i li,
+  gm_inv s ls -> nth_error ls i = Some li ->
+  exists li', nth_error (snd (gm_run (st_init mask) st_eval st_render sched (s, ls))) i = Some li' /\
+    gm_obs (fst (gm_run (st_init mask) st_eval st_render sched (s, ls))) li' =
+    gm_obs (fst (gm_solo (st_init mask) st_eval st_render (gm_count i sched) s li))
+           (snd (gm_solo (st_init mask) st_eval st_render (gm_count i sched) s li)).
+Proof. exact st_outcome_schedule_independent. Qed.
+Print Assumptions C06_settings_schedule_independent.
+
+(* refuted when one setting is only copied on the first use of a pooled object: a ctl of transaction 0
+   leaks through the pool into transaction 1, whose outcome differs from its outcome alone *)
+Theorem C06_setting_copied_on_first_use_only_refuted :
+  gm_inv (fst st_leak_state) (snd st_leak_state) /\
+  let st := gm_run (st_init [false]) st_eval st_render st_leak_sched st_leak_state in
+  let alone := gm_solo (st_init [false]) st_eval st_render (gm_count 1 st_leak_sched) (fst st_leak_state) (st_tx [SObs 0 200]) in
+  option_map (fun l => option_map st_out (l_out l)) (nth_error (snd st) 1) = Some (Some [false]) /\
+  option_map st_out (l_out (snd alone)) = Some [true].
+Proof. exact st_first_use_only_refuted. Qed.
+Print Assumptions C06_setting_copied_on_first_use_only_refuted.
